@@ -65,7 +65,8 @@ Fixpoint first_rdiff (x y : list res) (i : N) : option N :=
    kind 1 = implementation differs from the mirror model
             clause 0 main run, 3 run without passes, 4 address alone
    kind 2 = the property fails on the implementation's own trace
-            clause 1 envelope, 2 spaced, 3 gc visible, 4 not independent
+            clause 1 envelope, 2 spaced, 3 gc visible, 4 not independent,
+            6 an address idle for more than garbageCollectTime survives a pass
    The property is evaluated on histories that satisfy its hypothesis
    (monotone int64 times inside one span of 2^62 ns). *)
 Definition check_case (k : case) : list (N * N * N) :=
@@ -78,7 +79,8 @@ Definition check_case (k : case) : list (N * N * N) :=
   (match first_diff m_alone (c_alone k) 0 with Some i => [(1, 4, i)] | None => [] end) ++
   (if validb ops
    then map (fun p => (2, fst p, snd p))
-            (holds_chk (arrivals ops (c_obs k)) (c_nogc k) (c_addr k) (c_alone k))
+            (holds_chk (arrivals ops (c_obs k)) (c_nogc k) (c_addr k) (c_alone k)) ++
+        (match forgotten_chk [] ops (c_obs k) 0 with Some i => [(2, 6, i)] | None => [] end)
    else []).
 
 Fixpoint check_cases (ks : list case) (idx : N) : list (N * N * N * N) :=
@@ -148,3 +150,17 @@ Definition conc_check (addrs evs : list Uint63.int) : list (N * N * N * N) :=
 Definition conc_admitted (addrs evs : list Uint63.int) : Z :=
   let ad := dec_addrs addrs in
   admitted (nth 0 ad 0) (dec_evs ad evs).
+
+(* ---- device-level traces (real time): events (address index, time ns,
+   processed by the device = admitted by the limiter), the address whose
+   decisions are compared with [alone] (a run of the same arrival pattern with
+   no other sender), [tol] = bound on the timing error of a window.
+   kind 2, clause 11 envelope, 12 spaced refused, 14 not independent. ---- *)
+Definition dev_check (idx : N) (addrs evs : list Uint63.int) (pa : Uint63.int) (alone : list bool) (tol : Uint63.int)
+  : list (N * N * N * N) :=
+  let ad := dec_addrs addrs in
+  let e := dec_evs ad evs in
+  let a := nth (N.to_nat (n_of_int pa)) ad 0 in
+  (match envelope_chk_tol (Z.of_N (n_of_int tol)) e 0 with Some i => [(idx, 2, 11, i)] | None => [] end) ++
+  (match spaced_chk [] e 0 with Some i => [(idx, 2, 12, i)] | None => [] end) ++
+  (match first_diff (decs_of a e) alone 0 with Some i => [(idx, 2, 14, i)] | None => [] end).
